@@ -18,6 +18,7 @@ func init() {
 			"PV-FRESH: per-step group tables; CH-SIB: Key and AsLokiAPI add no condition of their own to the shared enumeration",
 			"PV-PAIR rangeAggIterator.Next output: the reported series are walked from a key list computed from the window in the same step",
 			"PV-RESET literalBinOpIterator.Next: accepted results reach r.Samples and the list is cut/set to them",
+			"PV-ALIAS label values shared with the record's attribute maps are never rewritten in place; PV-PAIR every reported record carries its own stream's resource attributes",
 		},
 		NotDecided: []string{"64-bit hash collisions between distinct encodings", "count conservation as arithmetic"},
 		Rules: func(r *Run) {
@@ -37,6 +38,8 @@ func init() {
 			rulePerStepGroupTables(r, []string{"vectorAggIterator", "vectorAggHeapIterator", "binOpIterator"})
 			ruleRangeWindow(r) // every series of the window is reported: the key list is computed from the window in this step
 			ruleLiteralBinOpWritesBack(r)
+			ruleNoInPlaceValueMutation(r, []string{enginePkg, metricPkg}, 2)
+			ruleRecordOrigin(r) // a series keeps the labels of its own container
 		},
 	})
 }
